@@ -193,8 +193,8 @@ class Check(PropertyCheck):
             "mapped) / 5 IPv6 notations, crossed with the 4 option pairs and 9 proxy modes (quick: rotating subset of modes "
             "per address, both local and non-local always present); then random addresses inside random intervals and "
             "mutated/raw peer texts. distinct = (peer text, mode, options); all are non-trivial.")
-    budget = {"quick": 30000, "thorough": 500000}
-    time_budget = {"quick": 28, "thorough": 600}
+    budget = {"quick": 20000, "thorough": 500000}
+    time_budget = {"quick": 20, "thorough": 600}
     fingerprints = ["mitmproxy.addons.block:Block.client_connected",
                     "mitmproxy.proxy.server:ConnectionHandler.handle_client",
                     "mitmproxy.proxy.mode_servers:ProxyConnectionHandler.handle_hook",
@@ -248,11 +248,6 @@ class Check(PropertyCheck):
 
     def generate(self, rng, tier):
         thorough = tier == "thorough"
-        for fam in (4, 6):
-            for n in self._boundary_addrs(fam):
-                if fam == 6 and MAPPED <= n < MAPPED + 2 ** 32 and not thorough and rng.chance(0.5):
-                    continue    # mapped range is covered through the IPv4 notations as well
-                yield from self._expand(fam, n, rng, tier, thorough)
         cuts = {4: _cuts(4) + [2 ** 32], 6: _cuts(6) + [2 ** 128]}
         texts = [b"", b"%", b"%eth0", b"1.2.3.4%", b"1.2.3.4%a%b", b"fe80::1%a%b", b"fe80::1%%b", b"::1%", b"::1%a/b",
                  b"1.2.3.4/32", b"::/0", b"01.2.3.4", b"1.2.3.256", b"1.2.3", b"1.2.3.4.5", b"1..3.4", b"1.2.3.4 ",
@@ -265,6 +260,13 @@ class Check(PropertyCheck):
         for t in texts:
             for mode in ("regular", "local"):
                 yield {"k": "raw", "peer_hex": hx(t), "mode": mode, "bg": 1, "bp": 1}
+        pts = [(fam, n) for fam in (4, 6) for n in self._boundary_addrs(fam)]
+        if not thorough:
+            rng.shuffle(pts)    # a run cut short by the time budget still samples both families evenly
+        for fam, n in pts:
+            if fam == 6 and MAPPED <= n < MAPPED + 2 ** 32 and not thorough and rng.chance(0.5):
+                continue        # the mapped range is covered through the IPv4 notations as well
+            yield from self._expand(fam, n, rng, tier, thorough)
         while True:
             r = rng.random()
             if r < 0.7:
